@@ -4,6 +4,8 @@ import YarlProofs.Lemmas.FixLemmas
 /-!
   C07Headline.lean — AUDIT LAYER for property C07.
   Continued in C07HeadlineMore.lean (theorems that need modules which import this file).
+  Continued further in C07HeadlineMore3.lean (C07Encoded.lean, added after both files: `URL.build(…, encoded=True)` stores
+  its arguments verbatim, its raw authority accessors, which calls raise; `str()` of `encoded=True` URLs).
 
   C07 | Parsing is the RFC 3986 decomposition of the input |
   "For every input string, the scheme, authority, path, query and fragment the library extracts equal the RFC 3986
@@ -225,6 +227,16 @@ GAPS:
     components of the Appendix B authority verbatim, up to: the port text through `int()` + range check (all four
     accessors raise when it fails), an empty user reads `None`, raw_host is "" (not `None`) for a missing host under a
     non-empty authority, raw_path is "/" for an empty path under an authority.  The DECODED `host` (IDNA) is C16.
+    EXTENDED to the other `encoded=True` entry point, `URL.build(…, encoded=True)` (not "parsing an input string", so
+    outside the letter of the property), by C07_build_encoded, C07_build_encoded_verbatim, C07_encBuildNetloc_shape,
+    C07_build_encoded_accessors, C07_build_encoded_raises, C07_build_encoded_instance / _instances / _conflicts
+    (C07Encoded.lean), see C07_headline_build_encoded_true_equation, …_verbatim, …_authority, …_accessors, …_raises,
+    …_instance, …_conflicts (C07HeadlineMore3.lean).  Proved: a successful call stores scheme (NOT lower-cased), path,
+    fragment and `query_string=` verbatim, a truthy `query=` rendered by `get_str_query` (as in both modes), the
+    authority `C07_encBuildNetloc` (`authority=` verbatim, else user / password / host verbatim WITHOUT brackets or
+    encoding, the port dropped iff it is the default of the scheme AS GIVEN), no cache; the four raw authority accessors
+    are the `Rfc.authoritySplit` components of that stored TEXT (same adjustments as above); exactly the mode-independent
+    argument conflicts raise, `encoded=True` adds no check.  See GAPS 9.
  3. PARTLY CLOSED by C07_text_after_bracket_ignored (C07More.lean), see C07_headline_text_around_brackets_ignored,
     …_instances, …_url (C07HeadlineMore.lean): text between the closing ']' and the ':' AND text between the '@' and the
     '[' is silently dropped by `split_netloc` ("[::1]x:80" ≡ "[::1]:80", "x[::1]" ≡ "[::1]"; F-C03-bracket family).
@@ -254,8 +266,21 @@ GAPS:
  8. NEW.  C07_headline_recompose_by_the_letter carries the hypothesis `hrooted` (under an authority the stored path is
     empty or rooted) for arbitrary `Url` records.  It holds for every parser result by Appendix B and for every URL
     reachable through the auto-encoding API by C15_headline_reachable (C15Headline.lean), but that composition is not
-    made in this layer.  "There is a component" is read as "the accessor is non-empty" (the raw accessors cannot tell
+    made in this layer.  It is a GENUINE restriction for `build(…, encoded=True)` results, which store `path=` without
+    the "must start with '/'" check: `build(scheme='http', host='h', path='x', query_string='a b', encoded=True)` has
+    the rootless path "x" under the authority "h" and `str()` "http://h/x?a b", not the concatenation "http://hx?a b"
+    (C07_headline_recompose_by_the_letter_fails_for_rootless_build_encoded_true, C07HeadlineMore3.lean).  "There is a component" is read as "the accessor is non-empty" (the raw accessors cannot tell
     an absent query / fragment / authority from an empty one; the dropped empty delimiters are F-C04-empty-delims).
+ 9. NEW.  `URL.build(…, encoded=True)` (C07Encoded.lean; C07_headline_build_encoded_true_*): the raw authority
+    accessors return the split of the ASSEMBLED authority text, not the `user=` / `password=` / `host=` / `port=`
+    arguments: a host with ':' is not bracketed, so `build(scheme='HTTP', host='h::1', port=80, …, encoded=True)` stores
+    "…h::1:80" and `explicit_port` (hence raw_user / raw_password / raw_host, and `str()`) raises ValueError
+    (C07_headline_build_encoded_true_instance; the F-C19-encoded-str family: with `encoded=True` nothing is validated);
+    a '@' or ':' inside `user=` / `host=` likewise moves the split.  No theorem states when the accessors DO return the
+    arguments (it would need `UserOK` / `HostOK`-style conditions on them, as `netloc_roundtrip` has for the
+    auto-encoding route).  `str()` of `encoded=True` URLs: C07_headline_encoded_true_str (cites C06_encoded_str,
+    C06Encoded.lean) = C07_headline_recompose_with_accessors plus "no cache" and "authority verbatim unless the explicit
+    port is the scheme default"; with_path / joinpath(…, encoded=True) are not treated in this layer.
 -/
 
 end Yarl
